@@ -145,7 +145,7 @@ func drawCase(t *rapid.T) caseT {
 		c.Chunks = rapid.SliceOfN(rapid.IntRange(1, 3*li), 1, 6).Draw(t, "chunks")
 	}
 	c.Flushes = rapid.IntRange(1, 16).Draw(t, "flushes")
-	c.Prefetch = rapid.IntRange(0, 3).Draw(t, "prefetch")
+	c.Prefetch = rapid.SampledFrom([]int{0, 0, 0, 1, 2, 3}).Draw(t, "prefetch")
 	c.CacheL = rapid.IntRange(1, 8).Draw(t, "cache")
 	c.RCW = rapid.IntRange(1, 8).Draw(t, "rcw")
 	c.CRC = rapid.Bool().Draw(t, "crc")
